@@ -812,3 +812,196 @@ func ruleGenTwins(prog *Program, rep *Report, floor int, rels ...string) {
 		rep.Errorf("B-gentwins compared %d pairs (floor %d): anchors did not resolve", n, floor)
 	}
 }
+
+// ---------------------------------------------------------------- D-globalwrite
+
+// ruleGlobalWrite: package-level variables that are not maps (the option defaults, the default
+// recomposer, flags) are configuration: user code may set them before use, the library itself only reads
+// them. A library function that assigns one - directly, or through a local pointer taken with &G - makes
+// every concurrent caller that reads the variable race with it and changes what later calls do.
+func ruleGlobalWrite(prog *Program, rep *Report) {
+	rep.Rules = append(rep.Rules, "D-globalwrite: outside init functions no function of a library package assigns a package-level variable of a library package (G = ..., G.f = ..., G[i] = ..., G.n++) or assigns through a local pointer that was set to &G or &G.f in the same function; sync.Pool, sync.Mutex and map variables are covered by D-put and D-global and are not examined here")
+	ff, finfo, _, err := loadFixture(fixtureGlobalWrite)
+	if err != nil {
+		rep.Errorf("D-globalwrite: fixture does not type-check: %v", err)
+		return
+	}
+	if fs, _ := globalWrites(ff, finfo, func(v *types.Var) bool { return v.Pkg() != nil && v.Parent() == v.Pkg().Scope() }); len(fs) != 3 {
+		rep.Errorf("D-globalwrite: the positive-control fixture produced %d matches (want 3)", len(fs))
+		return
+	}
+	rep.Discharge("D-globalwrite", "positive-control", "checker/rules_r7.go", "fixture: direct and aliased write reported, read through a pointer accepted")
+	libPkgs := map[*types.Package]bool{}
+	for _, pk := range prog.LibPkgs() {
+		libPkgs[pk.Types] = true
+	}
+	isGlobal := func(v *types.Var) bool {
+		if v.Pkg() == nil || !libPkgs[v.Pkg()] || v.Parent() != v.Pkg().Scope() {
+			return false
+		}
+		if _, isMap := v.Type().Underlying().(*types.Map); isMap {
+			return false
+		}
+		if nt, ok := v.Type().(*types.Named); ok && nt.Obj().Pkg() != nil && nt.Obj().Pkg().Path() == "sync" {
+			return false
+		}
+		return true
+	}
+	total := 0
+	for _, pk := range prog.LibPkgs() {
+		rel := pk.Types.Name()
+		sites, n := globalWrites(pk.Syntax, pk.TypesInfo, isGlobal)
+		total += n
+		for _, s := range sites {
+			if why, ok := globalWriteAccepted[rel+"."+s.key]; ok {
+				rep.Discharge("D-globalwrite", rel+"."+s.key, prog.Pos(s.pos), "accepted (read): "+why)
+				continue
+			}
+			rep.Violate(Finding{Rule: "D-globalwrite", Key: rel + "." + s.key, Pos: prog.Pos(s.pos), Msg: s.msg})
+		}
+		rep.Discharge("D-globalwrite", rel, rel, fmt.Sprintf("%d assignments examined", n))
+	}
+	rep.Eval(total)
+	if total < 500 {
+		rep.Errorf("D-globalwrite examined %d assignments (floor 500): packages did not load", total)
+	}
+}
+
+// globalWriteAccepted: writes of package-level variables that were read and are intended, by key.
+var globalWriteAccepted = map[string]string{}
+
+func globalWrites(files []*ast.File, info *types.Info, isGlobal func(*types.Var) bool) (sites []synSite, examined int) {
+	globalOf := func(e ast.Expr) *types.Var {
+		// the package-level variable an lvalue or &-operand is rooted in
+		for {
+			switch x := ast.Unparen(e).(type) {
+			case *ast.Ident:
+				if v, ok := info.Uses[x].(*types.Var); ok && isGlobal(v) {
+					return v
+				}
+				return nil
+			case *ast.SelectorExpr:
+				if v, ok := info.Uses[x.Sel].(*types.Var); ok && !v.IsField() && isGlobal(v) {
+					return v // pkg.G
+				}
+				e = x.X
+			case *ast.IndexExpr:
+				e = x.X
+			case *ast.StarExpr:
+				e = x.X
+			default:
+				return nil
+			}
+		}
+	}
+	for _, f := range files {
+		for _, d := range f.Decls {
+			fd, ok := d.(*ast.FuncDecl)
+			if !ok || fd.Body == nil || (fd.Recv == nil && fd.Name.Name == "init") {
+				continue
+			}
+			name := enclosingFuncName(f, fd.Pos())
+			alias := map[types.Object]*types.Var{} // local pointer -> global it points into
+			ast.Inspect(fd.Body, func(n ast.Node) bool {
+				as, ok := n.(*ast.AssignStmt)
+				if !ok {
+					return true
+				}
+				for i, l := range as.Lhs {
+					if i < len(as.Rhs) && len(as.Lhs) == len(as.Rhs) {
+						if u, ok := ast.Unparen(as.Rhs[i]).(*ast.UnaryExpr); ok && u.Op == token.AND {
+							if g := globalOf(u.X); g != nil {
+								if id, ok := l.(*ast.Ident); ok {
+									o := info.Defs[id]
+									if o == nil {
+										o = info.Uses[id]
+									}
+									if o != nil {
+										alias[o] = g
+									}
+								}
+							}
+						}
+					}
+				}
+				return true
+			})
+			report := func(pos token.Pos, g *types.Var, how string) {
+				sites = append(sites, synSite{pos: pos, file: f, key: fmt.Sprintf("%s:writes:%s.%s", name, g.Pkg().Name(), g.Name()),
+					msg: fmt.Sprintf("%s assigns the package-level variable %s.%s %s: concurrent callers that read it race with the write, and later calls see the changed value", name, g.Pkg().Name(), g.Name(), how)})
+			}
+			lhs := func(e ast.Expr, pos token.Pos) {
+				examined++
+				if g := globalOf(e); g != nil {
+					report(pos, g, "directly")
+					return
+				}
+				// through a local pointer: p.f = ..., *p = ..., p[i] = ...
+				root := ast.Unparen(e)
+				depth := 0
+				for {
+					switch x := root.(type) {
+					case *ast.SelectorExpr:
+						root = ast.Unparen(x.X)
+						depth++
+						continue
+					case *ast.StarExpr:
+						root = ast.Unparen(x.X)
+						depth++
+						continue
+					case *ast.IndexExpr:
+						root = ast.Unparen(x.X)
+						depth++
+						continue
+					}
+					break
+				}
+				if id, ok := root.(*ast.Ident); ok && depth > 0 {
+					if g := alias[info.Uses[id]]; g != nil {
+						report(pos, g, "through the local pointer "+id.Name)
+					}
+				}
+			}
+			ast.Inspect(fd.Body, func(n ast.Node) bool {
+				switch x := n.(type) {
+				case *ast.AssignStmt:
+					if x.Tok == token.DEFINE {
+						return true
+					}
+					for _, l := range x.Lhs {
+						lhs(l, x.Pos())
+					}
+				case *ast.IncDecStmt:
+					lhs(x.X, x.Pos())
+				}
+				return true
+			})
+		}
+	}
+	return
+}
+
+const fixtureGlobalWrite = `package fixture
+
+type options struct {
+	key  string
+	omit bool
+}
+
+var defaults = options{key: "type"}
+var counter int
+
+func read() string {
+	o := &defaults
+	return o.key
+}
+
+func direct() {
+	counter++
+}
+
+func aliased(k string) {
+	ao := &defaults
+	ao.key, ao.omit = k, true
+}
+`
